@@ -197,3 +197,28 @@ def leaf_type(t: "ref:Type") -> "bool":
     """layout leaves are numeric, enum or (not unrolled) array types with a well-formed name"""
     return ((isinstance(t, UnsignedType) or isinstance(t, SignedType) or isinstance(t, FloatType) or isinstance(t, DoubleType))
             and len(t.name) >= 1) or isinstance(t, EnumType)
+
+
+# ---------------------------------------------------------------- C14: the size the C plug-in's check computes (Type.get_length)
+def decl_bits(t: "ref:Type") -> "int":
+    """what get_length() returns where it is defined: the declared width of numeric types, size * element for arrays"""
+    if isinstance(t, UnsignedType) or isinstance(t, SignedType) or isinstance(t, FloatType) or isinstance(t, DoubleType):
+        return num_width(t)
+    if isinstance(t, ArrayType):
+        return decl_bits(t.underlying_type) * t.size
+    return 0
+
+
+def has_decl_bits(t: "ref:Type") -> "bool":
+    """get_length() is defined (does not raise): numeric types with a decimal width, arrays of such"""
+    if isinstance(t, UnsignedType) or isinstance(t, SignedType) or isinstance(t, FloatType) or isinstance(t, DoubleType):
+        return num_width(t) >= 0
+    if isinstance(t, ArrayType):
+        return has_decl_bits(t.underlying_type)
+    return False
+
+
+def decl_sum(fs: "seq[ref:StructField]", k: "int") -> "int":
+    if k <= 0:
+        return 0
+    return decl_sum(fs, k - 1) + decl_bits(fs[k - 1].type)
